@@ -28,6 +28,7 @@ type SpecEnv struct {
 	names   map[string]specVal
 	resolve func(string) (specVal, bool)
 	depth   int
+	noFacts bool // structural evaluation only (dummy values): emit no side facts
 }
 
 func (env *SpecEnv) child() *SpecEnv {
@@ -53,9 +54,40 @@ func (env *SpecEnv) evalBool(x ast.Expr) (string, error) {
 
 func (env *SpecEnv) term(sv specVal) string {
 	if sv.loc != nil {
-		return env.e.load(env.heap, sv.loc)
+		t := env.e.load(env.heap, sv.loc)
+		env.assumeStoredRefAllocated(t, sv.t)
+		return t
 	}
 	return sv.v.T
+}
+
+// assumeStoredRefAllocated: a reference read from a heap snapshot was allocated
+// before that snapshot was taken (no dangling references in a Go heap). Only
+// closed terms (no bound variables of an enclosing quantifier) are constrained.
+func (env *SpecEnv) assumeStoredRefAllocated(t string, ty types.Type) {
+	if ty == nil || env.noFacts || env.e.dry || strings.Contains(t, "|?") {
+		return
+	}
+	e := env.e
+	al := e.hget(env.heap, e.S.allocVar())
+	var fact string
+	switch ty.Underlying().(type) {
+	case *types.Pointer, *types.Map, *types.Chan:
+		fact = fmt.Sprintf("(< %s %s)", t, al)
+	case *types.Slice:
+		fact = fmt.Sprintf("(< (sl_base %s) %s)", t, al)
+	default:
+		return
+	}
+	if e.refFacts == nil {
+		e.refFacts = map[string]int{}
+	}
+	key := fmt.Sprintf("%d:%s", e.curBlk, fact)
+	if i, ok := e.refFacts[key]; ok && i < len(e.lines) && e.lines[i].blk == e.curBlk && strings.Contains(e.lines[i].text, fact) {
+		return // already asserted for this block (and not trimmed away since)
+	}
+	e.refFacts[key] = len(e.lines)
+	e.assert(fact)
 }
 
 func (env *SpecEnv) lookupType(src string) (types.Type, error) {
@@ -715,6 +747,51 @@ func (env *SpecEnv) evalCall(n *ast.CallExpr) (Val, types.Type, error) {
 		}
 		ev := e.S.elemVar(sl.Elem())
 		return Val{T: fmt.Sprintf("(= (select %s (sl_base %s)) (select %s (sl_base %s)))", e.hget(env.heap, ev), a.T, e.hget(env.old.heap, ev), a.T)}, tBool, nil
+	case "base":
+		// base(x): identity of the backing array of slice x (0 for nil)
+		a, at, err := argv(0)
+		if err != nil {
+			return Val{}, nil, err
+		}
+		if _, ok := at.Underlying().(*types.Slice); !ok {
+			return Val{}, nil, fmt.Errorf("base on %s", at)
+		}
+		return Val{T: fmt.Sprintf("(sl_base %s)", a.T)}, tInt, nil
+	case "otherarraysunchanged":
+		// otherarraysunchanged(x): every array of x's element type that existed in the old state, other than
+		// the backing array x had then, has the same contents now
+		if env.old == nil {
+			return Val{T: "true"}, tBool, nil
+		}
+		a, at, err := env.old.child().eval(n.Args[0])
+		if err != nil {
+			return Val{}, nil, err
+		}
+		sl, ok := at.Underlying().(*types.Slice)
+		if !ok {
+			return Val{}, nil, fmt.Errorf("otherarraysunchanged on %s", at)
+		}
+		ev := e.S.elemVar(sl.Elem())
+		e.n++
+		bv := fmt.Sprintf("|?arr%d|", e.n)
+		return Val{T: fmt.Sprintf("(forall ((%s Int)) (=> (and (> %s 0) (< %s %s) (not (= %s (sl_base %s)))) (= (select %s %s) (select %s %s))))",
+			bv, bv, bv, e.hget(env.old.heap, e.S.allocVar()), bv, a.T, e.hget(env.heap, ev), bv, e.hget(env.old.heap, ev), bv)}, tBool, nil
+	case "unchangedmap":
+		// unchangedmap(m): the map m (evaluated in the old state) has the same keys and values now as then
+		if env.old == nil {
+			return Val{T: "true"}, tBool, nil
+		}
+		a, at, err := env.old.child().eval(n.Args[0])
+		if err != nil {
+			return Val{}, nil, err
+		}
+		mt, ok := at.Underlying().(*types.Map)
+		if !ok {
+			return Val{}, nil, fmt.Errorf("unchangedmap on %s", at)
+		}
+		mv, dv := e.S.mapVar(mt), e.S.mapDomVar(mt)
+		return Val{T: fmt.Sprintf("(and (= (select %s %s) (select %s %s)) (= (select %s %s) (select %s %s)))",
+			e.hget(env.heap, mv), a.T, e.hget(env.old.heap, mv), a.T, e.hget(env.heap, dv), a.T, e.hget(env.old.heap, dv), a.T)}, tBool, nil
 	case "allocmark":
 		return Val{T: e.hget(env.heap, e.S.allocVar())}, tInt, nil
 	case "typeis":
